@@ -425,6 +425,9 @@ def gen_world(src, profile):
                     if a["default"][0] in ("lit", "field_default"):
                         a["default"] = ["attr_default"] + a["default"][1:]
     world["classes"].append(mdesc)
+    if profile.get("class_dnc") and src.chance(1, 8):
+        # class-level do_not_copy=True: "effectively making all mutations in-place" - also the ones that then fail half-way
+        mdesc["opts"]["do_not_copy"] = True
     if profile.get("cached_props") and src.chance(1, 3):
         cands = [a for a in m_attrs if a["default"][0] in ("lit", "attr_factory") and not any(k in a for k in ("init", "repr", "compare", "invalidated_by", "do_not_copy"))
                  and a["type"][0] in ("int", "list", "dict", "set")]
